@@ -660,3 +660,180 @@ Example ex_dialogs :
   dialogs_modelled [Dlg "/.*continue\?/" "Y" true; Dlg "sure" "N" true] = true /\
   answer_for [Dlg "/.*continue\?/" "Y" true; Dlg "sure" "N" true] "  Are you SURE? " = Some (Some "N").
 Proof. vm_compute. repeat split. Qed.
+
+(* =======================================================================================
+   Third part: `annet deploy --dont-commit` builds the PATCH with do_commit = False as well
+   (CliDeployerJob.parse_result -> _diff_and_patch(..., do_commit=not dont_commit)).
+   Model/PatchDC.v is make_patch with that flag; Spec/P_C09DC.v the declarative reference. *)
+From Annet Require Import Base.Tree Model.Rulebook Model.Diff Model.Pipeline Model.PatchDC Spec.P_C09DC Proofs.PatchDCProofs.
+
+(* with do_commit = True it is the make_patch of Model/Patch.v (every theorem about that model stands) *)
+Theorem C09_dc_true_is_make_patch :
+  forall rmatch rsrc rrev block_exit rreverse p ord,
+    make_patch_dc rmatch rsrc rrev block_exit rreverse true p ord = make_patch rmatch rsrc rrev block_exit rreverse p ord.
+Proof. exact make_patch_dc_true. Qed.
+Print Assumptions C09_dc_true_is_make_patch.
+
+(* the flag matters only through %force_commit rules: a diff that meets none gives the same patch *)
+Theorem C09_dc_irrelevant_without_force_commit :
+  forall rmatch rsrc rrev block_exit rreverse p,
+    fc_free p = true ->
+    forall dc ord, make_patch_dc rmatch rsrc rrev block_exit rreverse dc p ord =
+                   make_patch rmatch rsrc rrev block_exit rreverse p ord.
+Proof. exact make_patch_dc_irrelevant. Qed.
+Print Assumptions C09_dc_irrelevant_without_force_commit.
+
+(* do_commit = False: every row of the patch, at ANY depth, is a row the diff offers to a rule that is not
+   %force_commit (the row itself or the undo command of its slot), and not below a %force_commit rule:
+   no `commit` row is added, nothing of a %force_commit rule is kept *)
+Theorem C09_dc_no_added_row :
+  forall rmatch rsrc rrev block_exit rreverse p ord t,
+    make_patch_dc rmatch rsrc rrev block_exit rreverse false p ord = POk t ->
+    incl (pt_rows t) (pre_rows rreverse p).
+Proof. exact dc_false_rows. Qed.
+Print Assumptions C09_dc_no_added_row.
+
+(* in particular a `commit` row in such a patch is a row of the diff itself *)
+Theorem C09_dc_no_commit_row :
+  forall rmatch rsrc rrev block_exit rreverse p ord t,
+    make_patch_dc rmatch rsrc rrev block_exit rreverse false p ord = POk t ->
+    ~ In "commit" (pre_rows_all rreverse p) -> ~ In "commit" (pt_rows t).
+Proof.
+  intros rmatch rsrc rrev block_exit rreverse p ord t H Hn Hin. apply Hn.
+  apply pre_rows_sub. exact (dc_false_rows rmatch rsrc rrev block_exit rreverse p ord t H _ Hin).
+Qed.
+Print Assumptions C09_dc_no_commit_row.
+
+(* the clause c9_dc_rows of the predicate evaluated on the real outputs holds for the model's own output *)
+Theorem C09_dc_model :
+  forall (o : obsdc), dc_patch_ok (prreverse (od_vendor o)) (od_pre o) (model_dc o false) = true.
+Proof. intro o. apply dc_patch_ok_model. Qed.
+Print Assumptions C09_dc_model.
+
+(* ---- the stream handed to the driver under --dont-commit *)
+From Annet Require Import Spec.C09Blocks Proofs.PatchDCStream.
+
+(* the command of every path of cmd_paths is a row of the patch tree or a block-exit statement of the family *)
+Theorem C09_cmd_paths_rows :
+  forall (f : family) (t : ptree) (p : list string),
+    block_family f = true -> In p (cmd_paths f t) ->
+    In (path_cmd p) (pt_rows t) \/ In (path_cmd p) (exit_words f).
+Proof. exact cmd_paths_rows. Qed.
+Print Assumptions C09_cmd_paths_rows.
+
+(* apply_deploy_rulebook with do_commit = false (any rule matcher, any deploy rulebook, both shipped apply logics,
+   any number of sessions): a commit-class command of the stream is the command of one of the paths *)
+Theorem C09_deploy_no_commit_beyond_paths :
+  forall hit (e : env) rules paths cmds c,
+    e_commit e = false ->
+    deploy hit (std_wrappers e) rules paths = Some cmds ->
+    In c cmds -> is_class WCommit (c_cmd c) = true ->
+    exists pc, In pc paths /\ c_cmd c = path_cmd (fst pc).
+Proof. exact deploy_no_commit_beyond_paths. Qed.
+Print Assumptions C09_deploy_no_commit_beyond_paths.
+
+(* end to end, as CliDeployerJob.parse_result under --dont-commit: diff -> make_patch(do_commit=False) -> cmd_paths ->
+   apply_deploy_rulebook(do_commit=False).  Every commit-class command of the stream is a row the diff offers to a
+   rule that is not %force_commit: none is added by make_patch at any depth, none by the formatter, none by the
+   session wrappers. *)
+Theorem C09_dc_stream :
+  forall rmatch rsrc rrev block_exit rreverse (p : pre) ord t
+         (f : family) (paths : list (list string * ctx)) hit (e : env) rules cmds c,
+    make_patch_dc rmatch rsrc rrev block_exit rreverse false p ord = POk t ->
+    block_family f = true -> exits_not_commit f = true ->
+    map fst paths = cmd_paths f t ->
+    e_commit e = false ->
+    deploy hit (std_wrappers e) rules paths = Some cmds ->
+    In c cmds -> is_class WCommit (c_cmd c) = true ->
+    In (c_cmd c) (pre_rows rreverse p).
+Proof. exact dc_stream_rows. Qed.
+Print Assumptions C09_dc_stream.
+
+(* ---- non-vacuity of the third part *)
+
+(* the guard on the family: every formatter family of the shipped vendors (their exit words are no commit) *)
+Example ex_exits_not_commit :
+  forallb exits_not_commit [FCommon; FBlockExit "exit"; FHuawei; FCisco; FAsr] = true.
+Proof. vm_compute. reflexivity. Qed.
+
+(* a user rulebook with %force_commit at depth 0, 1 and 2 (huawei) *)
+Definition ex3_vendor : vendor := Vendor "undo" "quit" FHuawei.
+Definition ex3_rules : rset :=
+  ([(PRule "sysname *" false (Attrs "sysname *" LDefault DDefault false false) [] []);
+    (PRule "assign forward nvo3 %force_commit" false (Attrs "assign forward nvo3" LDefault DDefault false true) [] []);
+    (PRule "bgp *" false (Attrs "bgp *" LDefault DDefault true false)
+       [(PRule "router-id *" false (Attrs "router-id *" LDefault DDefault false false) [] []);
+        (PRule "ipv4-family vpn-instance *" false (Attrs "ipv4-family vpn-instance *" LDefault DDefault true false)
+           [(PRule "route-distinguisher * %force_commit" false (Attrs "route-distinguisher *" LDefault DDefault false true) [] []);
+            (PRule "peer * as-number *" false (Attrs "peer * as-number *" LDefault DDefault false false) [] [])] [])] []);
+    (PRule "interface *" false (Attrs "interface *" LDefault DDefault true false)
+       [(PRule "description ~" false (Attrs "description ~" LDefault DDefault false false) [] []);
+        (PRule "port mode * %force_commit" false (Attrs "port mode *" LDefault DDefault false true) [] []);
+        (PRule "mtu *" false (Attrs "mtu *" LDefault DDefault false false) [] [])] [])], []).
+Definition ex3_old : forest :=
+  [("sysname r1", (T []));
+   ("bgp 64496", (T [("router-id 10.0.0.1", (T []));
+                     ("ipv4-family vpn-instance CUST", (T [("peer 10.1.1.1 as-number 64497", (T []))]))]));
+   ("interface 100GE1/0/1", (T [("description uplink", (T [])); ("mtu 9000", (T []))]))].
+Definition ex3_new : forest :=
+  [("sysname r1", (T [])); ("assign forward nvo3", (T []));
+   ("bgp 64496", (T [("router-id 10.0.0.1", (T []));
+                     ("ipv4-family vpn-instance CUST", (T [("route-distinguisher 64496:2", (T []));
+                                                           ("peer 10.1.1.1 as-number 64498", (T []))]))]));
+   ("interface 100GE1/0/1", (T [("description uplink to spine", (T [])); ("port mode 50GE", (T [])); ("mtu 9100", (T []))]))].
+
+Definition ex3_rows (dc : bool) : list string :=
+  match patch_of_dc ex3_vendor dc ex3_rules [] ex3_old ex3_new with POk t => pt_rows t | PErr => ["<AssertionError>"] end.
+
+(* committing: each %force_commit row is followed by a `commit` row, at depth 0, 1 and 2 *)
+Example ex3_commit :
+  ex3_rows true =
+  ["assign forward nvo3"; "commit";
+   "bgp 64496"; "ipv4-family vpn-instance CUST"; "undo peer 10.1.1.1 as-number 64497"; "peer 10.1.1.1 as-number 64498";
+   "route-distinguisher 64496:2"; "commit";
+   "interface 100GE1/0/1"; "undo description uplink"; "description uplink to spine"; "undo mtu 9000"; "mtu 9100";
+   "port mode 50GE"; "commit"].
+Proof. vm_compute. reflexivity. Qed.
+
+(* --dont-commit: the %force_commit rows and their commits are left out at every depth *)
+Example ex3_dont_commit :
+  ex3_rows false =
+  ["bgp 64496"; "ipv4-family vpn-instance CUST"; "undo peer 10.1.1.1 as-number 64497"; "peer 10.1.1.1 as-number 64498";
+   "interface 100GE1/0/1"; "undo description uplink"; "description uplink to spine"; "undo mtu 9000"; "mtu 9100"].
+Proof. vm_compute. reflexivity. Qed.
+
+(* the statement is about the flag: with do_commit = true the same diff gives commit rows that are no rows of the diff *)
+Theorem C09_dc_true_adds_commit :
+  exists v rs old new t,
+    patch_of_dc v true rs [] old new = POk t /\
+    In "commit" (pt_rows t) /\
+    ~ In "commit" (pre_rows_all (prreverse v) (make_pre (p_make_diff rs old new))).
+Proof.
+  exists ex3_vendor, ex3_rules, ex3_old, ex3_new.
+  destruct (patch_of_dc ex3_vendor true ex3_rules [] ex3_old ex3_new) as [t|] eqn:E; [|vm_compute in E; discriminate].
+  exists t. split; [reflexivity|]. vm_compute in E. injection E as <-. split.
+  - vm_compute. tauto.
+  - vm_compute. intuition discriminate.
+Qed.
+Print Assumptions C09_dc_true_adds_commit.
+
+(* the guard of C09_dc_irrelevant_without_force_commit, and a diff outside it *)
+Example ex3_fc_free :
+  fc_free (make_pre (p_make_diff ex3_rules ex3_old ex3_old)) = true /\
+  fc_free (make_pre (p_make_diff ex3_rules ex3_old ex3_new)) = false.
+Proof. vm_compute. split; reflexivity. Qed.
+
+(* the whole --dont-commit flow on the example: Huawei CE (commit-capable), shipped-style deploy rule *)
+Example ex3_stream :
+  let e := Env false true (fun s => existsb (String.eqb s) ["Huawei"; "Huawei.CE"]) (fun _ => false) in
+  match patch_of_dc ex3_vendor false ex3_rules [] ex3_old ex3_new with
+  | POk t =>
+    option_map (map c_cmd)
+               (deploy row_hit (std_wrappers e) [] (map (fun p => (p, [])) (cmd_paths FHuawei t)))
+  | PErr => None
+  end =
+  Some ["system-view"; "bgp 64496"; "ipv4-family vpn-instance CUST"; "undo peer 10.1.1.1 as-number 64497";
+        "peer 10.1.1.1 as-number 64498"; "quit"; "quit";
+        "interface 100GE1/0/1"; "undo description uplink"; "description uplink to spine"; "undo mtu 9000"; "mtu 9100"; "quit";
+        "q"; "save"].
+Proof. vm_compute. reflexivity. Qed.
